@@ -71,6 +71,13 @@ def explore(run) -> List[Outcome]:
     return results
 
 
+class _OpaqueMarker:
+    pass
+
+
+OpaqueMarker = _OpaqueMarker()
+
+
 class ReturnSig(Exception):
     def __init__(self, value):
         self.value = value
@@ -574,10 +581,55 @@ class Interp:
         return v
 
     def ex_GeneratorExp(self, node):
-        v = self._comp(node, node.elt, as_list=True)
-        if isinstance(v, ListV):
-            v.lazy = True
-        return v
+        if len(node.generators) != 1:
+            self.unsupported(node, "nested generator expression")
+        first = self.eval(node.generators[0].iter)
+        return GenV(node, self.frame, first)
+
+    def gen_iter(self, g: GenV):
+        """Consume a generator expression element by element (Python generator: effects interleave)."""
+        if g.consumed:
+            return
+        g.consumed = True
+        gen = g.node.generators[0]
+        seq = self.models.iterate(g.first_iter, g.node)
+        fr = g.frame
+        if seq is None:
+            # opaque source: one symbolic element stands for all
+            self.frames.append(fr)
+            try:
+                saved = dict(fr.env)
+                self.assign(gen.target, self.models.opaque_element(g.first_iter, g.node))
+                for c in gen.ifs:
+                    self.truth(self.eval(c), c)
+                y = self.eval(g.node.elt)
+                fr.env.clear()
+                fr.env.update(saved)
+            finally:
+                self.frames.pop()
+            g.opaque_elem = y
+            yield OpaqueMarker
+            return
+        for x in seq:
+            self.frames.append(fr)
+            try:
+                shadow = {}
+                names = [n.id for n in ast.walk(gen.target) if isinstance(n, ast.Name)]
+                for nm in names:
+                    if nm in fr.env:
+                        shadow[nm] = fr.env[nm]
+                self.assign(gen.target, x)
+                keep = all(self.truth(self.eval(c), c) for c in gen.ifs)
+                y = self.eval(g.node.elt) if keep else None
+                for nm in names:
+                    if nm in shadow:
+                        fr.env[nm] = shadow[nm]
+                    else:
+                        fr.env.pop(nm, None)
+            finally:
+                self.frames.pop()
+            if keep:
+                yield y
 
     def _comp(self, node, elt, as_list):
         if len(node.generators) != 1:
